@@ -713,6 +713,9 @@ func (r *c17BFRunner) run(workers int, fault string, k int, seed uint64, mode st
 		hang     bool
 		deadline = time.After(c17HangTimeout)
 		tick     = time.NewTicker(50 * time.Millisecond)
+
+		quietSince int64
+		quietTicks int
 	)
 	defer tick.Stop()
 wait:
@@ -723,7 +726,14 @@ wait:
 		case <-deadline:
 			hang = true
 		case <-tick.C:
-			if inflight.Load() == 0 && time.Since(time.Unix(0, lastActive.Load())) > c17QuietTimeout {
+			// quiescence: nothing in flight and no driver activity, observed on 80 consecutive ticks that
+			// this process actually got to run (a stalled machine delivers no ticks, so it cannot fake it)
+			if la := lastActive.Load(); inflight.Load() == 0 && la == quietSince {
+				quietTicks++
+			} else {
+				quietSince, quietTicks = la, 0
+			}
+			if quietTicks >= 80 && time.Since(time.Unix(0, quietSince)) > c17QuietTimeout {
 				hang = true
 			}
 		}
@@ -742,7 +752,7 @@ wait:
 	cancel()
 	// goroutines must settle back (the pipe goroutine exits asynchronously after the cancel)
 	settled := false
-	for i := 0; i < 400; i++ {
+	for i := 0; i < 2000; i++ {
 		if runtime.NumGoroutine() <= baseline {
 			settled = true
 			break
